@@ -75,7 +75,7 @@ func history(t *testing.T, c *vk.C, rng *rand.Rand, i int) map[string]int {
 		if i%11 == 10 {
 			// authentic (hash matches) but unusable dictionaries: must be refused without a crash
 			d := refwire.NewDict()
-			degenerate = []string{"piece-length-0", "no-name", "pieces-odd-size", "no-length-no-files", "pieces-too-few"}[rng.IntN(5)]
+			degenerate = []string{"piece-length-0", "no-name", "pieces-odd-size", "no-length-no-files", "pieces-too-few", "negative-length"}[rng.IntN(6)]
 			d.Set("name", "deg")
 			d.Set("piece length", int64(16384))
 			d.Set("pieces", make([]byte, 20))
@@ -92,6 +92,9 @@ func history(t *testing.T, c *vk.C, rng *rand.Rand, i int) map[string]int {
 				d.Keys = []string{"name", "piece length", "pieces"}
 			case "pieces-too-few":
 				d.Set("length", int64(5*16384))
+			case "negative-length":
+				// truncating division makes "-k / piece length, plus one for the remainder" equal to the one hash present
+				d.Set("length", []int64{-1, -5, -8192, -16383}[rng.IntN(4)])
 			}
 			info = refwire.Benc(d)
 		}
